@@ -101,6 +101,8 @@ typedef struct of_2d_parity_cb
 	UINT16*		tab_nb_equ_for_repair;
 	
 		void** repair_symbols_values;
+	void**		tmp_tab_symbols;	/* same layout as of_linear_binary_code_cb_t is required */
+	UINT16		nb_tmp_symbols;
 #endif /* } OF_USE_DECODER */
 
 	void 		**encoding_symbols_tab;
